@@ -1,4 +1,7 @@
 use serde::{Deserialize, Serialize};
+#[cfg(kani)]
+use crate::verif_shim::map::HashSet;
+#[cfg(not(kani))]
 use std::collections::HashSet;
 use std::hash::Hash;
 
